@@ -15,7 +15,8 @@
     InjectTo with a required field and InjectTo with an optional field.  Struct
     injection (InjectBegin / one Get per field / abort on a required failure / extra
     injectors last) is explored for <=2 definitions and replayed with structs built by
-    reflection, once with and once without the extra map injector's key: which fields
+    reflection; the extra injectors (a multi-injector of a map injector and a data-scope
+    injector, each with a required and an optional key) in six combinations of keys: which fields
     are set, with which instance, the result, and that nothing after an aborting
     field is touched (what a FAILED InjectTo leaves in the fields resolved before the
     failure is not fixed by the statement: the instance or nothing, never another one).
@@ -34,7 +35,7 @@ NPROC = 14
 MANIFEST = dict(
     technique='TLA+ stack-machine model of the provider checked by TLC (with the pre-fix variant); every completed API history of the model replayed on the real Provider with generated factories; simulated deep behaviours over 3 names',
     text='Exhaustive for 2 names: 100 factory-behaviour configurations x all definition/Get sequences in the bound (303 000 states, 286 000 histories, each executed on the real code comparing every result, instance origin, identity and factory invocation counts). Beyond the bound, random behaviours of the same specification over 3 names (incl. 3-cycles) are replayed the same way.',
-    note='Factories are harness closures. InjectTo is exercised through one-field structs (required and optional tag) and, in a smaller bound and in the simulated behaviours, through structs of 2-3 tagged fields followed by extra injectors (a multi-injector holding a map injector); the datascope injector is not driven.')
+    note='Factories are harness closures. InjectTo is exercised through one-field structs (required and optional tag) and, in a smaller bound and in the simulated behaviours, through structs of 2-3 tagged fields followed by extra injectors (a multi-injector holding a map injector); the extra injectors are a multi-injector holding a map injector and a data-scope injector, each with a required and an optional key, in six combinations of present / absent keys.')
 
 
 def run(ctx):
